@@ -84,7 +84,7 @@ def materialise_rule(ctx, res, rule, entry_fn):
     ag = _pipe.evs(res, "autograd")
     for e in ag:
         k = f"{_layout.short_fn(e)}: autograd.grad(allow_unused=...)"
-        later = [c for c in _pipe.evs(res, "create") if c["seq"] > e["seq"] and c["fn"] == "zeros_like"]
+        later = [c for c in _pipe.evs(res, "create") if c["seq"] > e["seq"] and c["fn"] in ("zeros_like", "new_zeros")]  # (input.new_zeros(n): zeros with the dtype and device of the input)
         inp = atoms_of_desc(e["inputs"]) or []
         ok = (e["allow_unused"] is True and any(set(c["like"] or []) <= set(inp) and c["like"] for c in later)) or e.get("materialize_grads") is True
         ctx.require(ok, rule, k, "allow_unused=True and missing gradients replaced by zeros_like(input)",
